@@ -163,6 +163,13 @@ func runC02(c *Ctx) {
 			a, b := c.termOf(rgFn, insS[0].Common().Args[1]), c.termOf(rgFn, lkS[0].Common().Args[1])
 			okIns = a == b && (instrDominates(insS[0], lkS[0]) || (lkS[0].Block().Dominates(insS[0].Block()) && !reaches(lkS[0].Block(), lkS[0].Block(), insS[0].Block())))
 			detail = "insert(" + a + "), WriteTxLookupEntries(" + b + ")"
+			if p, isPhi := indexPhiOfArg(insS[0].Common().Args[1]); isPhi && okIns {
+				var why string
+				okIns, why = loopExitsAfter(p.Block(), insS[0])
+				detail += " " + why
+			} else {
+				okIns = false
+			}
 		}
 		c.Ob("C02-R2", "reorg: every block of the new chain (the new head included) is made canonical by reorg itself", c.FnPos(rgFn), okIns, detail)
 		// alternative entry point: `aquachain import` pre-filters the blocks of a file; a block may be skipped as
